@@ -86,6 +86,7 @@ Proof.
     assert (Hl : len (slice dirmeta off 0x18) = 0x18) by lia.
     set (meta := slice dirmeta off 24) in *.
     destruct (negb (utf16_ok _)); [discriminate|].
+    destruct (bad_dir_name _); [discriminate|].
     pose proof (okset_cons dirmeta 0x18 sd off Hd Em Ho Hl ltac:(lia)) as Hd'.
     assert (Hmb : bytes_ok meta) by (unfold meta; now apply bytes_ok_slice).
     (* sub-directories *)
